@@ -543,6 +543,15 @@ def guard_helpers(prog, res=None):
                 elif isinstance(call.args[1], ast.Name) and \
                         call.args[1].id[:1].isupper():
                     pass        # issubclass(x, SomeClass)
+                elif a == {decl} and b == {cand} and isinstance(
+                        getattr(call, '_parent', None), ast.BoolOp) and \
+                        isinstance(call._parent.op, ast.And) and any(
+                            isinstance(o, ast.Call) and o is not call and
+                            len(o.args) == 2 and
+                            unparse(o.args[0]) == unparse(call.args[1]) and
+                            unparse(o.args[1]) == unparse(call.args[0])
+                            for o in call._parent.values):
+                    pass        # both directions in one conjunction: equality
                 else:
                     problems.append((call, a, b))
             # every way of answering True is behind such a test
@@ -553,6 +562,9 @@ def guard_helpers(prog, res=None):
                 if isinstance(v, ast.Constant) and v.value is False:
                     continue
                 if v in tests or (isinstance(v, ast.Call) and v in tests):
+                    continue
+                if isinstance(v, ast.BoolOp) and isinstance(v.op, ast.And) \
+                        and any(x in tests for x in v.values):
                     continue
                 g = flatten_guards(guards_at(r, stop=f.node))
                 if not any(pol and e in tests for e, pol in g) and not any(
@@ -1154,6 +1166,63 @@ def rule_r12(prog, res):
               c10.rule_r5, prog, Result)
 
 
+def rule_r13(prog, res):
+    res.rule('R13', 'an array named by xsi:type replaces the declared one '
+             'only when its items are of the same simple type (an Integer is '
+             'not read where Decimal is declared, a Date not for a DateTime); '
+             'the dict reader checks and reads an XmlAttribute/XmlData member '
+             'as the type it wraps')
+    p_ = prog.cls('spyne.protocol._base:ProtocolMixin')
+    f = p_.methods.get('is_substitutable')
+    if f is None:
+        raise AnalysisError('ProtocolMixin.is_substitutable', 'not found')
+    ps = f.params()
+    both = []
+    for r in walk_no_defs(f.node):
+        if not isinstance(r, ast.Return) or r.value is None:
+            continue
+        calls = [c for c in ast.walk(r.value) if isinstance(c, ast.Call) and
+                 call_name(c) == 'issubclass' and len(c.args) == 2]
+        orders = {(unparse(c.args[0]), unparse(c.args[1])) for c in calls}
+        if any((b, a) in orders for a, b in orders if a != b):
+            atoms = guardspec.atoms_at(r, f.node)
+            if any('ComplexModelBase' in t and not pol for t, pol in atoms):
+                both.append(r)
+    ok = bool(both)
+    res.ob('R13', f.where, 'is_substitutable demands the same item type for '
+           'arrays of simple items: %s' % ok, 'ok' if ok else 'VIOLATED')
+    if not ok:
+        res.finding('R13', 'ProtocolMixin.is_substitutable|array-of-simple-'
+                    'items', f.where, 'arrays are compared through the '
+                    'substitutability of their item types only: xsi:type='
+                    '"integerArray" on a declared Array(Decimal) delivers '
+                    'ints, "dateArray" on Array(DateTime) delivers dates')
+    h = prog.cls('spyne.protocol.dictdoc.hier:HierDictDocument')
+    g = h.methods.get('_from_dict_value')
+    if g is None:
+        raise AnalysisError('HierDictDocument._from_dict_value', 'not found')
+    cparam = g.params()[3] if len(g.params()) > 3 else 'cls'
+    vals = [c.lineno for c in calls_in(g.node) if call_name(c) == 'validate'
+            and unparse(c.func).startswith('self.')]
+    unwraps = [a for a in walk_no_defs(g.node) if isinstance(a, ast.Assign)
+               and unparse(a.targets[0]) == cparam and
+               unparse(a.value) == cparam + '.type' and any(
+                   'XmlModifier' in t and pol
+                   for t, pol in guardspec.atoms_at(a, g.node))]
+    ok = bool(unwraps) and bool(vals) and min(
+        a.lineno for a in unwraps) < min(vals)
+    res.ob('R13', g.where, '_from_dict_value unwraps XmlAttribute/XmlData '
+           'members before the kind check: %s' % ok,
+           'ok' if ok else 'VIOLATED')
+    if not ok:
+        res.finding('R13', 'HierDictDocument._from_dict_value|modifier-not-'
+                    'unwrapped', g.where, 'the kind check and the leaf '
+                    'readers see the XmlAttribute wrapper class, which is no '
+                    'Unicode/Integer/...: {"code": [1, 2]} is delivered to a '
+                    'member declared XmlAttribute(Unicode) under soft '
+                    'validation')
+
+
 def run(prog, res, tier):
     guard_helpers(prog)
     res.run_rule(rule_r1, prog, res)
@@ -1168,6 +1237,7 @@ def run(prog, res, tier):
     res.run_rule(rule_r10, prog, res)
     res.run_rule(rule_r11, prog, res)
     res.run_rule(rule_r12, prog, res)
+    res.run_rule(rule_r13, prog, res)
 
 
 _X = 'spyne/protocol/xml.py'
@@ -1177,6 +1247,15 @@ _Y = 'spyne/protocol/yaml.py'
 _C = 'spyne/model/complex.py'
 
 MUTANTS = [
+    Mutant('array-items-one-direction', 'R13', 'fire',
+           'spyne/protocol/_base.py',
+           in_func('ProtocolMixin.is_substitutable',
+                   "            if not issubclass(cmember, ComplexModelBase):\n",
+                   "            if False:\n"), 'array-of-simple-items'),
+    Mutant('modifier-members-not-unwrapped', 'R13', 'fire', _H,
+           in_func('HierDictDocument._from_dict_value',
+                   "        if issubclass(cls, XmlModifier):\n",
+                   "        if False:\n"), 'modifier-not-unwrapped'),
     Mutant('empty-bytes-not-decoded', 'R12', 'fire',
            'spyne/protocol/_inbase.py',
            in_func('InProtocolBase.unicode_from_bytes',
